@@ -87,6 +87,17 @@ def damage_list(kind: str, size: int, tier: str) -> List[Tuple[str, Any]]:
     out.append(("empty_json", None))
     out.append(("swap", None))
     out.append(("transient", None))
+    if kind == "manifest_list":
+        # still-valid Avro with ONE bookkeeping field of ONE entry changed (what a flipped bit does to a varint):
+        # none of these fields decides which rows the table holds
+        for fld, val in (("content", 1), ("content", 2), ("sequence_number", 1000), ("min_sequence_number", 1000),
+                         ("added_snapshot_id", 7), ("partition_spec_id", 7), ("manifest_length", 1),
+                         ("added_data_files_count", 0), ("existing_data_files_count", 99), ("deleted_data_files_count", 5)):
+            out.append(("field", [fld, val]))
+    if kind.startswith("manifest#"):
+        for fld, val in (("snapshot_id", 7), ("sequence_number", 1000), ("file_sequence_number", 1000),
+                         ("data_file.file_size_in_bytes", 1)):
+            out.append(("field", [fld, val]))
     if kind.startswith("data#"):
         # the bytes change BETWEEN two accesses of one read call: rows may only be decoded from bytes
         # that were verified
@@ -104,7 +115,7 @@ class C14(Check):
             "reachable from the current snapshot (current metadata JSON, manifest list, each manifest, each data file) "
             "+ the pointer x damage {delete; truncate at 0,1,4,1/4,1/2,3/4,len-8,len-4,len-1 (thorough: ~40 offsets); "
             "flip one byte at 6 offsets (thorough: ~60); 64 random bytes; '{}' JSON; swap with a sibling of the same "
-            "kind; transient error on the first read of that file; data files: one byte flipped (file replaced) right after "
+            "kind; one bookkeeping field of one manifest-list / manifest entry changed in still-valid Avro; transient error on the first read of that file; data files: one byte flipped (file replaced) right after "
             "the read call's first access of the file} x 11 read API/option variants each through a fresh "
             "handle; non-trivial = the damaged file is one the API depends on and the outcome was judged; distinct by "
             "(file kind, damage class, api)")
@@ -129,6 +140,9 @@ class C14(Check):
         for kind, _p in tg:
             for dmg, arg in damage_list(kind, sizes[kind], tier):
                 yield {"target": kind, "damage": dmg, "arg": arg}
+        # checksum verification switched ON through the environment, in every spelling the library documents/accepts
+        for sp in ("on", "ON", "true ", " true", "1\n", "Yes ", "TRUE", "yes", "true\r"):
+            yield {"target": "data#0", "damage": "swap_env", "arg": sp}
         # the pointer AND every metadata file gone under a handle that is already open
         yield {"target": "metadata", "damage": "delete_all_metadata", "arg": None}
 
@@ -165,11 +179,27 @@ class C14(Check):
                     b = bytearray(raw)
                     b[min(case["arg"], len(b) - 1)] ^= 0x55
                     open(path, "wb").write(bytes(b))
+                elif dmg == "field":
+                    import fastavro
+                    rd = fastavro.reader(open(path, "rb"))
+                    schema, recs = rd.writer_schema, list(rd)
+                    fld, val = case["arg"]
+                    tgt: Any = recs[-1]
+                    parts = fld.split(".")
+                    for pp in parts[:-1]:
+                        tgt = tgt[pp]
+                    if parts[-1] not in tgt:
+                        res.count("field_absent")
+                        return
+                    tgt[parts[-1]] = val
+                    with open(path, "wb") as f:
+                        fastavro.writer(f, schema, recs)
+                    res.count("field_tampered")
                 elif dmg == "garbage":
                     open(path, "wb").write(bytes(rng.getrandbits(8) for _ in range(64)))
                 elif dmg == "empty_json":
                     open(path, "wb").write(b"{}")
-                elif dmg == "swap":
+                elif dmg in ("swap", "swap_env"):
                     sib = self._sibling(root, tg, kind)
                     if sib is None:
                         res.count("no_sibling")
@@ -181,8 +211,14 @@ class C14(Check):
                 # independent view after the damage
                 indep = self._independent(root, baseline)
                 fkind = kind.split("#")[0]
+                env_old = os.environ.get("DATASHARD_VERIFY_CHECKSUMS")
+                if dmg == "swap_env":
+                    os.environ["DATASHARD_VERIFY_CHECKSUMS"] = case["arg"]
+                    res.count("env_spellings_tried")
                 for (api, opts), hmode in [(ao, hm) for hm in (("fresh", "second") if dmg.startswith("toctou") else ("fresh", "warm")) for ao in APIS]:
                     key = (api, repr(opts))
+                    if dmg == "swap_env" and ("verify_checksums" in opts or api == "row_count"):
+                        continue
                     if hmode == "warm" and dmg in ("transient", "toctou_flip", "toctou_swap"):
                         continue
                     if dmg in ("toctou_flip", "toctou_swap"):
@@ -268,7 +304,7 @@ class C14(Check):
                            "options": opts, "outcome": got[0],
                            "result": (got[1] if got[0] == "raise" else (got[1] if isinstance(got[1], int) else len(got[1]))),
                            "undamaged": base if isinstance(base, int) else len(base), "independent_reader": indep}
-                    bytes_changed = dmg in ("truncate", "flip", "garbage", "empty_json", "swap")
+                    bytes_changed = dmg in ("truncate", "flip", "garbage", "empty_json", "swap", "swap_env")
                     if got[0] == "raise":
                         res.count("raised")
                         res.count("judged")
@@ -287,7 +323,7 @@ class C14(Check):
                         res.count("returned_undamaged")
                         res.key([fkind, dmg, api, "same"])
                         continue
-                    if indep == "different-valid" and dmg in ("flip", "swap", "empty_json"):
+                    if indep == "different-valid" and dmg in ("flip", "swap", "empty_json", "field"):
                         res.count("different_valid_not_judged")
                         continue
                     if fkind == "data" and not verify_on and dmg in ("flip", "swap") and api != "row_count":
@@ -299,6 +335,11 @@ class C14(Check):
                 if len(res.samples) < 1:
                     res.sample({"file": rel, "kind": kind, "damage": dmg, "arg": case["arg"],
                                 "independent_reader": indep, "apis_run": len(APIS)})
+                if dmg == "swap_env":
+                    if env_old is None:
+                        os.environ.pop("DATASHARD_VERIFY_CHECKSUMS", None)
+                    else:
+                        os.environ["DATASHARD_VERIFY_CHECKSUMS"] = env_old
         finally:
             ip.uninstall()
 
